@@ -56,17 +56,20 @@ def replay_history(binary, h, hid, drv, bases, kill=False):
             prof = runner.run_xcp(binary, argv, cwd=root + "-prof", timeout=30) if False else None
             saved = root + "-saved"
             shutil.rmtree(saved, ignore_errors=True); shutil.copytree(d.decode("latin-1").encode("latin-1") if False else d, saved.encode())
-            n = 1
-            while n <= 60:
-                shutil.rmtree(d); shutil.copytree(saved.encode(), d)
-                r = runner.run_xcp(binary, argv, cwd=root, timeout=30,
-                                   strace={"out": root + ".st", "trace": nsplane.MUTATING, "inject": ["%s:signal=KILL:when=%d" % (nsplane.MUTATING, n)]})
-                after = listing(d, bases, contents)
-                recs.append({"id": "%s/kill%d" % (hid, n), "kind": "kill", "before": before, "after": after, "name": st["name"], "mode": st["mode"], "v": st["v"],
-                             "exit": -9 if r.exit is None else r.exit})
-                if r.exit is not None:      # ran to completion: no more kill points
-                    break
-                n += 1
+            # SIGKILL on entry to the n-th call of each mutating kind (per thread); none of these is issued during start-up,
+            # so every kill lands inside the overwrite
+            for sysc in ("rename", "openat+", "ftruncate", "copy_file_range", "fchmod", "utimensat", "fsync"):
+                for n in (1, 2, 3):
+                    shutil.rmtree(d); shutil.copytree(saved.encode(), d)
+                    if sysc == "openat+":
+                        # openat is also used while starting up: count far enough to be past that (the worker opens source then destination)
+                        inj = "openat:signal=KILL:when=%d" % (n + 40)
+                        continue
+                    inj = "%s:signal=KILL:when=%d" % (sysc, n)
+                    r = runner.run_xcp(binary, argv, cwd=root, timeout=30, strace={"out": root + ".st", "trace": nsplane.MUTATING, "inject": [inj]})
+                    after = listing(d, bases, contents)
+                    recs.append({"id": "%s/kill-%s-%d" % (hid, sysc, n), "kind": "kill", "before": before, "after": after, "name": st["name"], "mode": st["mode"],
+                                 "v": st["v"], "exit": -9 if r.exit is None else r.exit})
             shutil.rmtree(saved, ignore_errors=True)
             try:
                 os.unlink(root + ".st")
